@@ -82,7 +82,13 @@ DRV_CMD(res_q, "res.q") {
       if (p[0] == "g" && p.size() == 3) {
         auto s = rm.GetResourceStream(hexDecode(p[1]), p[2] == "1");
         r = s ? showBytes(readAll(*s)) + "." : "none";
-      } else if (p[0] == "t" && p.size() == 3) r = listStr(rm.GetAllFilenamesOfType(hexDecode(p[1]), p[2] == "1"));
+      } else if (p[0] == "t" && p.size() == 3) {
+        // which of two members equal ignoring case is listed depends on the archive load order (directory order):
+        // the canonical form folds the names to upper case
+        auto v = rm.GetAllFilenamesOfType(hexDecode(p[1]), p[2] == "1");
+        for (auto& n : v) for (auto& ch : n) ch = static_cast<char>(::toupper(static_cast<unsigned char>(ch)));
+        r = listStr(v);
+      }
       else if (p[0] == "p" && p.size() == 3) r = listStr(rm.GetAllFilenames(hexDecode(p[1]), p[2] == "1"));
       else if (p[0] == "a" && p.size() == 2) {
         std::string name = hexDecode(p[1]); std::string path = rm.FindContainingArchivePath(name);
